@@ -760,6 +760,7 @@ def _install(w):
     def mk_rb_add(orig):
         def add(self, server):
             orig(self, server)
+            w.vu_log.append((server.name, int(server.valid_until)))
             if server.parent is not None:
                 w.prim('validuntil %d %d' % (sid_of(server.name), int(server.valid_until)))
         return add
@@ -857,10 +858,17 @@ def _install(w):
                 data = self.backend.get_default('/servers/' + servername)
                 w.gone_ctx = 'record-changed' if data else 'record-gone'
                 w.stats['remove_server:' + w.gone_ctx] += 1
+            on = _fops_on(self)
+            lvl, i0, loaded = w.fops_lvl, len(w.run.lines), servername in self.servers
+            w.fops_lvl += 1
             try:
-                return orig(self, servername)
+                r = orig(self, servername)
             finally:
                 w.gone_ctx = None
+                w.fops_lvl -= 1
+            if on:
+                _fops('remove', '%d %d' % (sid_of(servername), 1 if loaded else 0), i0, lvl)
+            return r
         return remove_server
     patch(Loader, 'remove_server', mk_remove_server)
 
@@ -879,6 +887,93 @@ def _install(w):
 
     def _live(self):
         return w.enabled and self is w.m
+
+
+    # ---- handler level (TmVerif.LoaderOps): per-call correspondence of the CALL LISTS ---------------------------
+    # the inputs of a handler are captured at its call boundary (stored records as the real backend returns them,
+    # loader tables before the call); the lines recorded while it runs (calls into the cell, writes to modelled
+    # paths, modelled sub-operations) are the expected output of the stateless `fops <handler> ...` line.
+    _FOPS_KINDS = ('server', 'detach', 'removeall', 'state', 'validuntil', 'app', 'updapp', 'bl', 'idg', 'rmidg',
+                   'bucket', 'restoreone', 'mrmapp', 'rmapp', 'rmserver')
+    w.fops_lvl = 0
+    w.pres_subs = None
+    w.vu_log = []
+    orig_encode = w.loader_mod.traits.encode
+
+    def _fops_on(self):
+        return _live(self) and w.depth == 0
+
+    def _calls_since(i0):
+        out = []
+        for ln in w.run.lines[i0:]:
+            k = ln.split(' ', 1)[0]
+            if k in _FOPS_KINDS or (k == 'w' and ln[2:5] in ('mk:', 'pP:', 'dR:')):
+                out.append(ln)
+        return ';'.join(out) or '-'
+
+    def _fops(handler, tok, i0, lvl, expected=None):
+        w.run.op('fops %s %s' % (handler, tok), _calls_since(i0) if expected is None else expected)
+        w.stats['fops:' + handler] += 1
+        if lvl == 1 and w.pres_subs is not None:
+            w.pres_subs.append('%s|%s' % (handler, tok.replace(' ', '|')))
+
+    def _rec_tok(rec):
+        return '%s %s' % (rec['state'], _i(rec['since'])) if rec else '- 0'
+
+    def _vu_tok(servername, v0):
+        got = [v for n, v in w.vu_log[v0:] if n == servername]
+        return '%d' % got[-1] if got else '~'
+
+    def _load_in(self, servername):
+        """Inputs of load_server at the call boundary (all but the recorded reboot-bucket choice)."""
+        data = self.backend.get_default(z.path.server(servername))
+        if data:
+            cap = w.loader_mod.resources(data)
+            mask = orig_encode(dict(self.trait_codes), data.get('traits', []), add_new=True)[0]
+            pb = self.buckets.get(data.get('parent'))
+            rec = '%d,%d,%d,%d,%d,%d' % (int(cap[0]), int(cap[1]), int(cap[2]),
+                                         LABELS.get(data.get('partition') or '_default', 9), mask,
+                                         w.bid(pb) if pb is not None else 0)
+            pl = pb is not None
+        else:
+            rec, pl = '~', False
+        pnode = z.path.placement(servername)
+        return '%s %d %d %s %d %s' % (rec, 1 if pl else 0, 1 if self.backend.exists(pnode) else 0,
+                                      _rec_tok(self.backend.get_default(pnode)),
+                                      1 if self.backend.exists(z.path.server_presence(servername)) else 0,
+                                      _i(_time.time()))
+
+    def mk_load_server(orig):
+        def load_server(self, servername):
+            if not _fops_on(self):
+                return orig(self, servername)
+            lvl, i0, v0 = w.fops_lvl, len(w.run.lines), len(w.vu_log)
+            tok = _load_in(self, servername)
+            w.fops_lvl += 1
+            try:
+                r = orig(self, servername)
+            finally:
+                w.fops_lvl -= 1
+            _fops('load', '%d %s %s' % (sid_of(servername), tok, _vu_tok(servername, v0)), i0, lvl)
+            return r
+        return load_server
+    patch(Loader, 'load_server', mk_load_server)
+
+    def mk_valid_until(orig):
+        def set_server_valid_until(self, servername):
+            if not _fops_on(self) or servername not in self.servers:
+                return orig(self, servername)
+            lvl, i0, v0 = w.fops_lvl, len(w.run.lines), len(w.vu_log)
+            present = bool(self.backend.exists(z.path.server_presence(servername)))
+            w.fops_lvl += 1
+            try:
+                r = orig(self, servername)
+            finally:
+                w.fops_lvl -= 1
+            _fops('validuntil', '%d %d %s' % (sid_of(servername), 1 if present else 0, _vu_tok(servername, v0)), i0, lvl)
+            return r
+        return set_server_valid_until
+    patch(Loader, 'set_server_valid_until', mk_valid_until)
 
     def mk_record_state(orig):
         def _record_server_state(self, servername):
@@ -902,7 +997,15 @@ def _install(w):
             now = _time.time()
             n0 = len(w.rec_calls)
             w.adj_log.append((servername, w.in_reload > 0))
-            r = orig(self, servername)
+            lvl, i0 = w.fops_lvl, len(w.run.lines)
+            w.fops_lvl += 1
+            try:
+                r = orig(self, servername)
+            finally:
+                w.fops_lvl -= 1
+            if w.depth == 0:
+                _fops('adjust', '%d %s %s %s %d %s' % (sid_of(servername), st0.value, _i(since0), _rec_tok(rec),
+                                                       1 if present else 0, _i(now)), i0, lvl)
             st1, since1 = srv.get_state()
             recs = [c for c in w.rec_calls[n0:] if c[0] == servername]
             exp = '%s %s %s' % (st1.value, _i(since1),
@@ -945,11 +1048,25 @@ def _install(w):
                 finally:
                     w.in_reload -= 1
                     self.backend.zkclient.vanish_on_read = None
+            fon = _fops_on(self)
+            lvl, i0, v0 = w.fops_lvl, len(w.run.lines), len(w.vu_log)
+            if fon:
+                placed = ','.join('%d:%d' % (aid_of(a), 1 if self.backend.exists(z.path.placement(servername, a)) else 0)
+                                  for a in (list(cur.apps) if cur is not None else [])) or '-'
+                ftok = '%d %s %s %s' % (sid_of(servername), cur_s, placed, _load_in(self, servername))
             w.in_reload += 1
+            w.fops_lvl += 1
             try:
                 r = orig(self, servername)
+            except AssertionError:
+                if fon:
+                    _fops('reload', '%s %s' % (ftok, _vu_tok(servername, v0)), i0, lvl, expected='assertion')
+                raise
             finally:
                 w.in_reload -= 1
+                w.fops_lvl -= 1
+            if fon:
+                _fops('reload', '%s %s' % (ftok, _vu_tok(servername, v0)), i0, lvl)
             now = self.servers.get(servername)
             made = w.created[c0:]
             rec_s = '~'
@@ -977,7 +1094,20 @@ def _install(w):
             before = sorted((sid_of(n), s.state.value) for n, s in self.servers.items())
             present = sorted(sid_of(n) for n in servers if n in self.servers)
             a0, r0 = len(w.adj_log), len(w.reload_log)
-            r = orig(self, servers)
+            fon = _fops_on(self) and w.fops_lvl == 0
+            i0 = len(w.run.lines)
+            if fon:
+                w.pres_subs = []
+                w.fops_lvl = 1
+            try:
+                r = orig(self, servers)
+            finally:
+                subs, w.pres_subs = w.pres_subs, None
+                if fon:
+                    w.fops_lvl = 0
+            if fon:
+                _fops('presence', ' '.join(['%s %s' % (','.join('%d:%s' % p for p in before) or '-',
+                                                        ','.join(str(i) for i in present) or '-')] + subs), i0, 0)
             reloaded = set(w.reload_log[r0:])
             down = {n for n, nested in w.adj_log[a0:] if not nested and n not in reloaded}
             w.run.op('fpres %s %s' % (','.join('%d:%s' % p for p in before) or '-',
